@@ -1056,6 +1056,21 @@ func (s *fakeStream) Recv(ctx context.Context, m proto.Message) error {
 			<-ctx.Done()
 			return ctx.Err()
 		}
+		if done && s.att.mode == 'S' && s.att.pos == "z" && !s.closed {
+			// a fully answered attempt whose half-closed stream does NOT end with a clean EOF: the fault comes
+			// AFTER the last answer (the drain Recv of client.close())
+			switch s.att.k {
+			case 0:
+				return status.Error(codes.Internal, "scripted non-OK status at end of stream")
+			case 1:
+				return status.Error(codes.Unavailable, "scripted RST_STREAM at end of stream")
+			case 2:
+				return errors.New("scripted transport failure at end of stream")
+			default:
+				<-ctx.Done() // the target never finishes the stream
+				return ctx.Err()
+			}
+		}
 		if done {
 			return io.EOF
 		}
